@@ -413,7 +413,10 @@ class SFixed(Template[_FixedTemplateArg], AssignableType):
                         selected_bits = self._val.lsb(rest=overflow + 1).msb(
                             rest=cutoff
                         )
-                        overflow_or_full = does_overflow or not ~selected_bits
+                        # only a non-negative value can be rounded above the maximum
+                        overflow_or_full = does_overflow or (
+                            not sign_bit and not ~selected_bits
+                        )
 
                         return Result(
                             raw=Value[Signed[Result._width]](
@@ -461,10 +464,29 @@ class SFixed(Template[_FixedTemplateArg], AssignableType):
                             else Signed[2](0)
                         )
 
+                    kept_bits = self._val.msb(rest=cutoff).signed
+
+                    if (
+                        overflow_style is FixedOverflowStyle.SATURATE
+                        and selfleft == left
+                        and kept_bits.width > 1
+                    ):
+                        # without spare integer bits, rounding the largest
+                        # positive value up would wrap around
+                        is_max = not kept_bits.msb() and not ~kept_bits.lsb(rest=1)
+
+                        return Result(
+                            raw=Value[Signed[Result._width]](
+                                choose_first(
+                                    (is_max, Signed[Result._width].max()),
+                                    default=kept_bits.resize(Result._width) + do_round,
+                                )
+                            )
+                        )
+
                     return Result(
                         raw=Value[Signed[Result._width]](
-                            self._val.msb(rest=cutoff).signed.resize(Result._width)
-                            + do_round
+                            kept_bits.resize(Result._width) + do_round
                         )
                     )
 
@@ -798,9 +820,27 @@ class UFixed(Template[_FixedTemplateArg], AssignableType):
                             else Unsigned[1](0)
                         )
 
+                    kept_bits = self._val.msb(rest=cutoff).unsigned
+
+                    if (
+                        overflow_style is FixedOverflowStyle.SATURATE
+                        and selfleft == left
+                    ):
+                        # without spare integer bits, rounding the
+                        # largest value up would wrap around
+                        is_max = not ~kept_bits
+
+                        return Result(
+                            raw=Value[Unsigned[Result._width]](
+                                choose_first(
+                                    (is_max, Unsigned[Result._width].max()),
+                                    default=kept_bits.resize(Result._width) + do_round,
+                                )
+                            )
+                        )
+
                     return Result(
                         raw=Value[Unsigned[Result._width]](
-                            self._val.msb(rest=cutoff).unsigned.resize(Result._width)
-                            + do_round
+                            kept_bits.resize(Result._width) + do_round
                         )
                     )
